@@ -111,3 +111,92 @@ func ZZ_C16_MalformedIsError() {
 		vx.Assert("zero-length BOOLEAN is an error", Unmarshal(b, &bb) != nil)
 	}
 }
+
+type zzTwo struct {
+	A int64 `ber:"tagNum:0"`
+	B bool  `ber:"tagNum:1"`
+}
+
+type zzPlainSeq struct {
+	A int64
+	B bool
+}
+
+// Wrongly-typed input is reported as an error: an element whose identifier
+// (class or tag number) is not the one the target type and its parameters
+// call for - a BOOLEAN where an INTEGER is expected, a universal tag where a
+// context tag is expected, a wrong context tag number - never yields a value.
+// The element is otherwise arbitrary (any length octets and contents).
+//
+//gosx:property=C16 tier=quick unwind=20 p.maxlen=5 p.maxlen.thorough=7
+func ZZ_C16_WronglyTypedIsError() {
+	b := zzInput("b", vx.Param("maxlen", 5))
+	vx.Assume(len(b) >= 2)
+	vx.Assume(b[0]&0x1f != 0x1f) // low tag numbers (the expected ones all are)
+	class := int(b[0] >> 6)
+	num := uint64(b[0] & 0x1f)
+	p := ""
+	tagged := vx.Choice("ctx", 3)
+	switch tagged {
+	case 1:
+		p = "tagNum:5"
+	case 2:
+		p = "tagNum:5,explicit"
+	}
+	var want uint64
+	var err error
+	switch vx.Choice("target", 10) {
+	case 0:
+		var w int64
+		want, err = TagInteger, UnmarshalWithParams(b, &w, p)
+	case 1:
+		var w int32
+		want, err = TagInteger, UnmarshalWithParams(b, &w, p)
+	case 2:
+		var w bool
+		want, err = TagBoolean, UnmarshalWithParams(b, &w, p)
+	case 3:
+		var w Enumerated
+		want, err = TagEnumerated, UnmarshalWithParams(b, &w, p)
+	case 4:
+		var w OctetString
+		want, err = TagOctetString, UnmarshalWithParams(b, &w, p)
+	case 5:
+		var w BitString
+		want, err = TagBitString, UnmarshalWithParams(b, &w, p)
+	case 6:
+		var w NULL
+		want, err = TagNull, UnmarshalWithParams(b, &w, p)
+	case 7:
+		var w zzPlainSeq
+		want, err = TagSequence, UnmarshalWithParams(b, &w, p)
+	case 8:
+		var w zzTwo
+		want, err = TagSequence, UnmarshalWithParams(b, &w, p)
+	case 9:
+		var w []int64
+		want, err = TagSequence, UnmarshalWithParams(b, &w, p)
+	}
+	if tagged != 0 {
+		if class != ClassContextSpecific || num != 5 {
+			vx.Assert("an element without the expected context tag is an error", err != nil)
+		}
+		return
+	}
+	if class != ClassUniversal || num != want {
+		vx.Assert("an element of another universal type / class is an error", err != nil)
+	}
+}
+
+// A SEQUENCE member with a context tag is recognised by class and number: a
+// universal or application element that merely carries the same number is
+// not taken for it.
+//
+//gosx:property=C16 tier=quick unwind=20
+func ZZ_C16_MemberOfAnotherClassIsError() {
+	id := vx.Byte("id")
+	vx.Assume(id&0x1f == 0 && id>>6 != ClassContextSpecific) // number 0, not context class
+	b := []byte{0x30, 0x06, id, 0x01, vx.Byte("a"), 0x81, 0x01, vx.Byte("bb")}
+	var w zzTwo
+	vx.Assert("a member element of another class is an error", Unmarshal(b, &w) != nil)
+}
